@@ -780,6 +780,9 @@ def gen_src(unit_name):
 
 GEN_SRC = {n: gen_src(n) for n in ("SrcKmpLps", "SrcShiftAndMasks", "SrcHorspoolNew", "SrcFenwick", "SrcBitEnc", "SrcBwt", "SrcPrescan")}
 
+# genfm: the FM-index chain (C04/C05) — added separately so that concurrent edits of the line above merge trivially
+GEN_SRC.update({n: gen_src(n) for n in ("SrcOcc",)})
+
 
 # ------------------------------------------------------------------------------------------ theorem modules built here
 
@@ -832,6 +835,32 @@ EXTRACTORS = {
     "C08": [GEN_SRC["SrcKmpLps"], GEN_SRC["SrcShiftAndMasks"], GEN_SRC["SrcHorspoolNew"]],
     "C18": [GEN_SRC["SrcFenwick"], GEN_SRC["SrcBitEnc"]],
 }
+
+def soft_modules(mods, what):
+    """genfm: `lake build` of shape-dependent equality theorems "translated body = mirror model" that a property-preserving
+    rewrite may falsify (the property-level theorems over the same generated definition are hard obligations of
+    Thm/Cxx.lean).  A failure is a note decided by the behavioural tie (`drift` tags), never a broken obligation."""
+    def run_soft(repo):
+        p = subprocess.run(["lake", "build"] + mods, cwd=LEAN, stdout=subprocess.PIPE, stderr=subprocess.STDOUT,
+                           text=True, timeout=3600)
+        if p.returncode != 0:
+            names = []
+            for mm in re.finditer(r"error: (RbV/[\w/]+\.lean):(\d+):\d+:\s*(.*)", p.stdout):
+                d = "%s (%s:%s)" % (enclosing_decl(mm.group(1), int(mm.group(2))), mm.group(1), mm.group(2))
+                if d not in names:
+                    names.append(d)
+            shape_note("%s: %s" % (what, " | ".join(names[:4]) or "lake build failed"))
+        else:
+            print("gen_tables: %s checked (soft)" % " ".join(mods))
+    run_soft.__name__ = "run_soft_" + "_".join(m.split(".")[-1] for m in mods)
+    return run_soft
+
+
+# genfm: translated bodies of the FM-index chain; Thm/C04.lean and Thm/C05.lean import RbV.Thm.GenSrc* and restate
+SOFT_OCC = soft_modules(["RbV.Thm.GenSrcOccModel"], "the mirror model `occGet` no longer mirrors the text of `Occ::get` "
+                        "branch by branch (the property-level theorem `occ_get_source_exact` is checked separately)")
+EXTRACTORS["C04"] = EXTRACTORS["C04"] + [GEN_SRC["SrcOcc"], SOFT_OCC]
+EXTRACTORS["C05"] = EXTRACTORS.get("C05", []) + [gen_occ, GEN_SRC["SrcOcc"]]
 
 
 def main():
